@@ -6,7 +6,7 @@ import re
 import shutil
 import tempfile
 
-from mc import core, impl, clidrv, pelgen, decode
+from mc import subchunk, core, impl, clidrv, pelgen, decode
 from mc.core import ChunkResult
 from mc.ref import hwdiags as rhw
 
@@ -122,6 +122,8 @@ def plan(tier, seed):
         for cfg in ('absent', 'full'):
             for a, b in itertools.product(range(3), repeat=2):
                 ch.append({'k': 'sig_all', 'cfg': cfg, 'prefix': [a, b]})
+    # the same under python -O (assertions stripped, __debug__ false)
+    ch += [dict(c, optimize=True) for c in [{'k': 'routes', 'cfg': 'full'}, {'k': 'regs', 'cfg': 'full'}, {'k': 'misc'}]]
     return ch
 
 
@@ -322,6 +324,9 @@ ROUTES = ['parser-lower', 'parser-upper', 'src10', 'src20', 'ud0', 'ud1', 'ud2',
 
 
 def run_chunk(chunk):
+    routed = subchunk.route(__name__, chunk)
+    if routed is not None:
+        return routed
     res = ChunkResult()
     impl.ensure(False)
     k = chunk['k']
